@@ -211,6 +211,33 @@ fn collect_folding<T, U, I: Iterator<Item = Result<T, bigtools::BBIReadError>>>(
     }
 }
 
+/// The same answer consumed through the adaptors built on `Iterator::nth` (which a type may override):
+/// `pattern` 0 = repeated nth(0), 1 = repeated nth(1) (every second item), 2 = skip(2) then next().
+/// Returns the items delivered; `expected_of` says which items of the full answer that must be.
+fn collect_nth<T, U, I: Iterator<Item = Result<T, bigtools::BBIReadError>>>(mut it: I, pattern: usize, conv: impl Fn(T) -> U) -> Result<Vec<U>, String> {
+    let mut v = vec![];
+    match pattern {
+        0 | 1 => {
+            while let Some(x) = it.nth(pattern) {
+                v.push(conv(x.map_err(|e| format!("{}", e))?));
+            }
+        }
+        _ => {
+            for x in it.skip(2) {
+                v.push(conv(x.map_err(|e| format!("{}", e))?));
+            }
+        }
+    }
+    Ok(v)
+}
+fn expected_of<U: Clone>(full: &[U], pattern: usize) -> Vec<U> {
+    match pattern {
+        0 => full.to_vec(),
+        1 => full.iter().skip(1).step_by(2).cloned().collect(),
+        _ => full.iter().skip(2).cloned().collect(),
+    }
+}
+
 fn cmp_answer(
     path: &str,
     ch: &WChrom,
@@ -314,6 +341,21 @@ fn c03_ranges(c: &WigCase, bytes: &[u8], out: &mut Outcome) {
                     let g = open().and_then(|r| r.get_interval_move(&ch.name, s, e).map_err(|e| format!("{}", e))).and_then(|it| collect_folding(it, (k + 1) % 3, |x: bigtools::Value| (x.start, x.end, x.value.to_bits())));
                     cmp_answer("move, next() then for_each", ch, s, e, g, &tags, out);
                     out.count("range_queries_consumed_through_fold", 2);
+                    // ... and through nth / skip, against the answer of the plain loop
+                    if let Ok(full) = plain.get_interval(&ch.name, s, e).map_err(|e| format!("{}", e)).and_then(collect_wig) {
+                        let pattern = ((s + e) % 3) as usize;
+                        let conv = |x: bigtools::Value| (x.start, x.end, x.value.to_bits());
+                        for (what, got) in [
+                            ("plain", plain.get_interval(&ch.name, s, e).map_err(|e| format!("{}", e)).and_then(|it| collect_nth(it, pattern, conv))),
+                            ("cached", cached.get_interval(&ch.name, s, e).map_err(|e| format!("{}", e)).and_then(|it| collect_nth(it, (pattern + 1) % 3, conv))),
+                        ] {
+                            let pat = if what == "plain" { pattern } else { (pattern + 1) % 3 };
+                            out.count("range_queries_consumed_through_nth", 1);
+                            if got.as_ref().ok() != Some(&expected_of(&full, pat)) {
+                                out.fail("answer_depends_on_how_the_iterator_is_consumed", &tags, format!("{} reader, {} [{},{}) consumed with {}: {:?}, the plain loop gives {:?}", what, ch.name, s, e, ["nth(0)", "nth(1)", "skip(2)"][pat], got, full));
+                            }
+                        }
+                    }
                     let g = cached
                         .get_interval(&ch.name, s, e)
                         .map_err(|e| format!("{}", e))
@@ -1243,6 +1285,20 @@ fn c04_ranges(c: &BedCase, bytes: &[u8], out: &mut Outcome) {
                     let g = open().and_then(|r| r.get_interval_move(&ch.name, s, e).map_err(|e| format!("{}", e))).and_then(|it| collect_folding(it, (k + 1) % 3, |x: bigtools::BedEntry| (x.start, x.end, x.rest)));
                     cmp_bed_answer("move, next() then for_each", ch, s, e, g, &tags, out);
                     out.count("range_queries_consumed_through_fold", 2);
+                    if let Ok(full) = plain.get_interval(&ch.name, s, e).map_err(|e| format!("{}", e)).and_then(collect_bed) {
+                        let pattern = ((s + e) % 3) as usize;
+                        let conv = |x: bigtools::BedEntry| (x.start, x.end, x.rest);
+                        for (what, got) in [
+                            ("plain", plain.get_interval(&ch.name, s, e).map_err(|e| format!("{}", e)).and_then(|it| collect_nth(it, pattern, conv))),
+                            ("cached", cached.get_interval(&ch.name, s, e).map_err(|e| format!("{}", e)).and_then(|it| collect_nth(it, (pattern + 1) % 3, conv))),
+                        ] {
+                            let pat = if what == "plain" { pattern } else { (pattern + 1) % 3 };
+                            out.count("range_queries_consumed_through_nth", 1);
+                            if got.as_ref().ok() != Some(&expected_of(&full, pat)) {
+                                out.fail("answer_depends_on_how_the_iterator_is_consumed", &tags, format!("{} reader, {} [{},{}) consumed with {}: {:?}, the plain loop gives {:?}", what, ch.name, s, e, ["nth(0)", "nth(1)", "skip(2)"][pat], got, full));
+                            }
+                        }
+                    }
                     let g = cached
                         .get_interval(&ch.name, s, e)
                         .map_err(|e| format!("{}", e))
